@@ -472,4 +472,12 @@ func init() {
 		Old:    "func stringifyBranches(options []Option) string {\n\tvar buf bytes.Buffer\n",
 		New:    "func stringifyBranches(options []Option) string {\n\tvar buf bytes.Buffer\n\tslices.SortFunc(options, func(a, b Option) int {\n\t\tif a.Label < b.Label {\n\t\t\treturn -1\n\t\t}\n\t\tif a.Label > b.Label {\n\t\t\treturn 1\n\t\t}\n\t\treturn 0\n\t})\n",
 		Expect: "(*types.SelectLabelType).String | printer:String"})
+	addFixture(Fixture{Name: "interpreter-told-typechecked-by-the-raw-flag", Rule: "R-TYPECHECKED-FLAG", File: "cmd/cli.go",
+		Old:    "\t\t\tTypechecked:       typecheckRes,",
+		New:    "\t\t\tTypechecked:       *typecheck,",
+		Expect: "cmd.Cli | typechecked-flag"})
+	addFixture(Fixture{Name: "name-prints-its-polarity-sign", Rule: "R-NAME-TOKEN", File: "process/name.go",
+		Old:    "\tvar buffer bytes.Buffer\n\n\tif n.Ident != \"\" {\n\t\tbuffer.WriteString(n.Ident)",
+		New:    "\tvar buffer bytes.Buffer\n\n\tif n.ExplicitPolarity != nil && *n.ExplicitPolarity == types.NEGATIVE {\n\t\tbuffer.WriteString(\"-\")\n\t}\n\tif n.Ident != \"\" {\n\t\tbuffer.WriteString(n.Ident)",
+		Expect: "(*process.SendForm).String | name-after-literal"})
 }
